@@ -22,6 +22,31 @@ type EncCall struct {
 	I   int64  `json:"i,omitempty"`
 	F   int    `json:"f,omitempty"` // index into floatTable
 	Val string `json:"val,omitempty"`
+	Raw bool   `json:"raw,omitempty"` // string token taken from a Decoder (AllowInvalidUTF8) instead of jsontext.String
+}
+
+// rawStringToken yields the string s as a token that still points into a
+// Decoder's buffer: the Encoder has to validate and re-encode it exactly as
+// it does for jsontext.String(s), although a Decoder "already checked" it.
+func rawStringToken(s string) jsontext.Token {
+	b := []byte{'"'}
+	for i := 0; i < len(s); i++ {
+		switch c := s[i]; {
+		case c == '"' || c == '\\':
+			b = append(b, '\\', c)
+		case c < 0x20:
+			b = append(b, fmt.Sprintf("\\u%04x", c)...)
+		default:
+			b = append(b, c)
+		}
+	}
+	b = append(b, '"')
+	d := jsontext.NewDecoder(bytes.NewReader(b), jsontext.AllowInvalidUTF8(true))
+	tok, err := d.ReadToken()
+	if err != nil {
+		panic("verifsim: rawStringToken: " + err.Error())
+	}
+	return tok
 }
 
 var floatTable = []struct {
@@ -192,6 +217,9 @@ func makeToken(c EncCall) jsontext.Token {
 	case ']':
 		return jsontext.EndArray
 	case 's':
+		if c.Raw {
+			return rawStringToken(c.S)
+		}
 		return jsontext.String(c.S)
 	case 'i':
 		return jsontext.Int(c.I)
@@ -519,7 +547,7 @@ func (sc *Enc) genLegal(cs *core.Stream, m *refjson.Model, o *EncOpts, fresh *in
 	if m.NeedName() {
 		switch cs.Weighted(6, 2, 3) {
 		case 0:
-			return EncCall{Op: 'T', Tok: 's', S: sc.freshName(cs, fresh)}
+			return EncCall{Op: 'T', Tok: 's', S: sc.freshName(cs, fresh), Raw: cs.Chance(1, 5)}
 		case 1:
 			return EncCall{Op: 'V', Val: refjson.Quote(sc.freshName(cs, fresh), false, false)}
 		default:
@@ -530,7 +558,7 @@ func (sc *Enc) genLegal(cs *core.Stream, m *refjson.Model, o *EncOpts, fresh *in
 	case 0:
 		return EncCall{Op: 'T', Tok: "ntf"[cs.Draw(3)]}
 	case 1:
-		return EncCall{Op: 'T', Tok: 's', S: strFamily(cs)}
+		return EncCall{Op: 'T', Tok: 's', S: strFamily(cs), Raw: cs.Chance(1, 5)}
 	case 2:
 		if cs.Bool() {
 			return EncCall{Op: 'T', Tok: 'i', I: int64(cs.Draw(2000)) - 1000}
@@ -588,9 +616,9 @@ func (sc *Enc) genIllegal(cs *core.Stream, m *refjson.Model, o *EncOpts, fresh *
 	case 1: // non-string (maybe at a name position)
 		return EncCall{Op: 'T', Tok: "ntfi{["[cs.Draw(6)], I: 7}
 	case 2: // repeated name
-		return EncCall{Op: 'T', Tok: 's', S: nameFamily[cs.Draw(len(nameFamily))]}
+		return EncCall{Op: 'T', Tok: 's', S: nameFamily[cs.Draw(len(nameFamily))], Raw: cs.Chance(1, 5)}
 	case 3: // ill-formed string
-		return EncCall{Op: 'T', Tok: 's', S: []string{"\xff", "a\xc0\x80", "\xe2\x82", "ok\x80ok", "\xed\xa0\x80"}[cs.Draw(5)]}
+		return EncCall{Op: 'T', Tok: 's', S: []string{"\xff", "a\xc0\x80", "\xe2\x82", "ok\x80ok", "\xed\xa0\x80"}[cs.Draw(5)], Raw: cs.Chance(1, 3)}
 	case 4: // non-finite float
 		return EncCall{Op: 'T', Tok: 'F', F: 8 + cs.Draw(3)}
 	case 5: // zero token
